@@ -45,10 +45,17 @@ type Verif18Torrent struct {
 	CloseErr error // result of Close of the next piece reader
 	Hash     core.InfoHash
 	Dig      core.Digest
+
+	// CompleteCalls counts Complete() observations (reset by a harness before
+	// the phase it is interested in); ObsAtCompletion is its value at the moment
+	// the last missing piece was written (-1: the torrent has not completed
+	// since the last reset).
+	CompleteCalls   int
+	ObsAtCompletion int
 }
 
 func Verif18NewTorrent(n int, complete bool) *Verif18Torrent {
-	t := &Verif18Torrent{N: n, Bits: bitset.New(uint(n))}
+	t := &Verif18Torrent{N: n, Bits: bitset.New(uint(n)), ObsAtCompletion: -1}
 	t.Hash[0] = 7
 	dig, err := core.NewSHA256DigestFromHex("00112233445566778899aabbccddeeff00112233445566778899aabbccddeeff")
 	verif.Assert("fixed-digest", err == nil)
@@ -72,6 +79,7 @@ func (t *Verif18Torrent) MaxPieceLength() int64       { return 1 }
 func (t *Verif18Torrent) InfoHash() core.InfoHash     { return t.Hash }
 func (t *Verif18Torrent) Complete() bool {
 	verif.Yield() // storage is shared with the connection goroutines: schedule point
+	t.CompleteCalls++
 	return t.Bits.Count() == uint(t.N)
 }
 func (t *Verif18Torrent) BytesDownloaded() int64   { return int64(t.Bits.Count()) }
@@ -95,6 +103,9 @@ func (t *Verif18Torrent) WritePiece(src storage.PieceReader, piece int) error {
 		return storage.ErrPieceComplete
 	}
 	t.Bits.Set(uint(piece))
+	if t.Bits.Count() == uint(t.N) {
+		t.ObsAtCompletion = t.CompleteCalls
+	}
 	return nil
 }
 func (t *Verif18Torrent) GetPieceReader(piece int) (storage.PieceReader, error) {
